@@ -786,3 +786,12 @@ RULES["numbytes"] = rule_numbytes
 for _s in PROPS["C09"]["streams"]:
     if _s["name"] == "numbytes":
         _s["rule"] = "numbytes"
+
+# C01: the JSON round trip on the whole domain
+PROPS["C01"]["theorems"] += ["Refmt.C01JsonFull.roundtrip_full_json", "Refmt.C01JsonFull.roundtrip_full_json_exact", "Refmt.C01JsonFull.transport_json'"]
+PROPS["C01"]["extra_modules"] += ["RefmtProofs.Props.C01JsonFull"]
+PROPS["C01"]["claim"] += (" Since C01JsonFull.roundtrip_full_json the JSON statement holds on the whole domain as well: for every type of fullTy "
+    "whose atlas names are valid UTF-8 and every value JSON can carry (no byte strings, finite floats, valid UTF-8 text, untyped slots "
+    "holding native values) Marshal to JSON text (any Line/Indent options) then Unmarshal returns normV .json up to map entry order: "
+    "-0 comes back as 0, integral floats in untyped slots as integers, uint64 below 2^63 in untyped slots as int. A registered tagged "
+    "type inside an untyped slot cannot be reconstructed from JSON (tags are not written): kernel-checked examples show what comes back.")
